@@ -86,7 +86,9 @@ def run(facts, cg):
                 good = []
                 for sbi, si, st in sts:
                     term = simplify(T.of_rvalue(b, st['rv'], 0))
-                    if has_call(term, 'Bytes::len') or has_call(term, '::len'):
+                    # by the fragment's length as it is: `min(len, what is left)` after the other field was already updated advances by
+                    # less than was handed out, the retry then asks again for bytes the caller already has
+                    if (has_call(term, 'Bytes::len') or has_call(term, '::len')) and not any(n_[0] == 'call' and n_[1].split('::')[-1] in ('min', 'max', 'clamp') for n_ in walk(term)):
                         good.append(sbi)
                 for rbi in rets:
                     if not any(g in dom.get(rbi, ()) for g in good):
@@ -96,7 +98,7 @@ def run(facts, cg):
     for (b, bi, t), shape in zip(range_sites, range_terms):
         ok = len(shape) == 2 and isinstance(shape[1], tuple) and len(shape[1]) == 3 and shape[1][0] == 'Sub' and shape[1][2] == 1 and \
             isinstance(shape[1][1], tuple) and len(shape[1][1]) == 3 and shape[1][1][0] == 'Add' and shape[0] in (shape[1][1][1], shape[1][1][2]) and \
-            shape[1][1][1] != shape[1][1][2]
+            shape[1][1][1] != shape[1][1][2] and not any(isinstance(x, tuple) for x in (shape[1][1][1], shape[1][1][2]) if x != shape[0])
         if not ok:
             finding('R-RESUME', b.q, 'range-bounds', 'the Range header at %s is not `bytes=first-(first+size-1)` (inclusive end): %s' % (t['loc'], shape))
     if len(range_sites) < 2:
@@ -139,9 +141,42 @@ def run(facts, cg):
             for st in b.blocks[bi]['stmts']:
                 if st['k'] == 'assign' and st['pl']['p'] and st['pl']['p'][-1]['k'] == 'field' and st['pl']['p'][-1].get('adt') == RANGE_REQ:
                     term = simplify(T.of_rvalue(b, st['rv'], 0))
+                    if isinstance(term, tuple) and term[0] == 'agg' and term[1].endswith('RequestState') and not term[3] and rearms:
+                        # in the state machine itself: back to "send the request" only when the delay of a retry has run out (the Ready
+                        # edge of the timer's poll) - a body that merely ended early and is "continued" from there re-sends without a
+                        # delay and without spending the retry budget: a server that keeps ending early is asked for ever
+                        sleeps = [cbi for cbi, ct in b.calls() if 'q' in ct['callee'] and ct['callee']['q'] == 'core::future::future::Future::poll' and ct['args'] and
+                                  ct['args'][0]['k'] in ('copy', 'move') and 'Sleep' in str(b.lty(ct['args'][0]['pl']['l']).get('s'))]
+                        domr = b.dominators()
+                        if sleeps and not any(sp == bi or sp in domr.get(bi, ()) for sp in sleeps):
+                            finding('R-RETRY', b.q, 'resent-without-budget', 'the request is put back to "not sent yet" at %s outside the delay arm of the retry path: it is sent '
+                                    'again at once, as often as the peer makes it happen, without the retry budget being spent' % st['loc'])
                     if isinstance(term, tuple) and term[0] == 'agg' and term[1].endswith('RequestState') and not term[3] and not rearms:
                         finding('R-RESUME', b.q, 'reinitialised', 'a range request is put back to its first state at %s outside its constructor and its retry path: what belongs to '
                                 'one request (the retry budget it has left, the bytes it has delivered) is carried into the next' % st['loc'])
+
+    # ---------------------------------------------------------------- R-WHO(http-send): who talks to the server
+    # Every request that goes out is a range request of the HTTP reader (header region + runs of wanted chunks: that is what C06 /
+    # C07 count).  A request sent from anywhere else - a "resolve the redirect first" HEAD that falls back to a plain GET in the
+    # command line tool - fetches bytes nobody accounted for (the whole archive, in that fallback).
+    n_send = 0
+    for b in facts.bodies.values():
+        if b.generated or b.crate not in ('bita', 'bitar'):
+            continue
+        for bi, t in b.calls():
+            if 'q' not in t['callee']:
+                continue
+            q = callee_q(t)
+            if q in ('reqwest::async_impl::request::RequestBuilder::send', 'reqwest::async_impl::client::Client::execute', 'reqwest::get',
+                     'reqwest::blocking::request::RequestBuilder::send', 'reqwest::blocking::client::Client::execute', 'reqwest::blocking::get'):
+                if b.id.startswith('bitar::archive_reader::http_range_request::'):
+                    n_send += 1
+                else:
+                    finding('R-WHO(archive-read)', b.q, 'request-sent-outside-reader:' + q.split('::')[-1], 'a request is sent at %s, outside the range requests of the HTTP '
+                            'reader: what it fetches is neither the header region nor a run of wanted chunks' % t['loc'])
+    instances.append({'rule': 'R-WHO(archive-read)', 'what': 'requests are sent by the range request only', 'send_sites': n_send})
+    if n_send < 2:
+        finding('R-WHO(archive-read)', '-', 'floor-send', 'expected the two send() sites of the range request, found %d (cannot decide)' % n_send)
 
     # ---------------------------------------------------------------- R-EXACTLEN: read_at hands back no more than it was asked for
     # try_init slices the header it gets by offsets computed from `size`; a reader that returns a longer buffer shifts
